@@ -160,6 +160,7 @@ type Store struct {
 	vars   map[string]*Term
 	Vars   []*Term // in creation order
 	T, F   *Term
+	ranges map[int][2]uint64
 }
 
 func NewStore() *Store {
